@@ -608,6 +608,8 @@ run_single_program = Fn(C, 'run_single_program', ret='r', pre_rewrites=RSP_RW, f
         'fn-entry': 'RAW: let tracked mut sg = new_siglog();',
         'before-call:fork': 'RAW: let ghost f0 = old(k).fds; let ghost f1 = k.fds; proof { chk_sigpipe_default(sg); }',
         'before-call:try_run_builtin_in_subprocess': 'chk_job_signals_default(sg);',
+        # C09: the NAME=v words a line starts with go into the environment of the command they stand in front of -- the first stage -- and of no other
+        'before-text:proof { chk_argv(': 'LABEL:C09.rsp.a_prefix_assignment_reaches_the_first_stage_only: assert((idx_cmd == 0 ==> prefix@ == cl.envs@) && (idx_cmd > 0 ==> prefix@ == Map::<String, String>::empty()));',
         'before-text:// (in parent) close unused pipe ends': 'LABEL:C02+C08.rsp.the_shell_has_the_default_sigpipe_action_back_after_the_here_string: assert(!sg.ignored);',
         'before-call:has_redirect_from': 'lemma_lits();',
         'hdr:&cmd.redirects_to|body-entry': 'lemma_lits();',
